@@ -29,7 +29,7 @@ func sortedOutputProblems(e *Eco, in []string, out []string, outVals []any) (str
 
 func checkC07(ctx *Ctx) {
 	res := ctx.Res
-	res.Rule = "per ecosystem: lists of 1..64 accepted versions drawn from a pool with duplicates and Compare-equal respellings (a quarter of the lists are windows of the pool in generation order: variants of one text); each list is sorted (a) with slices.SortFunc and the ecosystem's Compare as the documented idiom does and (b) by the CLI 'sort' command (run(w,args) in-process through the verif hook, plus a sample of real process executions); every permutation of lists of length <= 6 and 6 random permutations of longer ones. Checked: String() of each parsed input is the input text up to outer white space, the output multiset equals those strings, adjacent pairs non-decreasing, the sequence of equivalence classes identical across permutations; a list with an invalid element makes the CLI exit 1 with a diagnostic that names the first invalid element and prints no result. non-trivial = distinct (list, permutation) cases with at least two Compare-distinct elements"
+	res.Rule = "per ecosystem: lists of 1..64 accepted versions drawn from a pool with duplicates and Compare-equal respellings (a quarter of the lists are windows of the pool in generation order: variants of one text; a quarter are one pool member with its prefix siblings — the same text with one alphanumeric run extended or shortened); each list is sorted (a) with slices.SortFunc and the ecosystem's Compare as the documented idiom does and (b) by the CLI 'sort' command (run(w,args) in-process through the verif hook, plus a sample of real process executions); every permutation of lists of length <= 6 and 6 random permutations of longer ones. Checked: String() of each parsed input is the input text up to outer white space, the output multiset equals those strings, adjacent pairs non-decreasing, the sequence of equivalence classes identical across permutations; a list with an invalid element makes the CLI exit 1 with a diagnostic that names the first invalid element and prints no result. non-trivial = distinct (list, permutation) cases with at least two Compare-distinct elements"
 	nLists := 40
 	if !ctx.Quick {
 		nLists = 600
@@ -98,6 +98,24 @@ func checkC07(ctx *Ctx) {
 			if li%4 == 1 && len(p.Strs) > n {
 				st := r.Intn(len(p.Strs) - n + 1)
 				list = append(list, p.Strs[st:st+n]...)
+			}
+			// sibling lists: one pool member and the texts derived from it by extending / shortening
+			// one alphanumeric run (half of the time the run after a rare punctuation byte)
+			if li%4 == 3 {
+				src, after := p.Strs[r.Intn(len(p.Strs))], byte(0)
+				if r.Chance(50) {
+					src, after = pickRare(r, p.Strs, src)
+				}
+				list = append(list, src)
+				for _, t := range prefixSiblingsAfter(r, src, after) {
+					if pr := e.Parse(t); pr.OK && len(list) < n {
+						list = append(list, t)
+					}
+				}
+				if n < 4 {
+					n = minInt(5, len(list))
+					list = list[:n]
+				}
 			}
 			for len(list) < n {
 				switch {
